@@ -421,7 +421,8 @@ func c12All(c *Check, P string) {
 						continue
 					}
 					_, isDefer := use.(*ssa.Defer)
-					okLate := isDefer
+					// deferred in the middleware's own frame (a defer inside a helper runs when the helper returns)
+					okLate := isDefer && use.Parent() == f
 					if !okLate && f == I {
 						// a call in place is fine once no wait can follow
 						okLate = true
@@ -465,6 +466,28 @@ func c12All(c *Check, P string) {
 		}
 	}
 	c.Floor(P+".O5", "OnRetryHook call", nh, 1)
+	// … whenever it is set: between a failed attempt and the next one the hook is called unless it is nil — no other
+	// condition (a Logger being configured, the kind of error) decides about it
+	{
+		var hookCalls []ssa.Instruction
+		for _, cl := range CallsIn(I) {
+			if !cl.Common().IsInvoke() && CalleeFn(cl.Common()) == nil && AllOrigins(cl.Common().Value, exportedFieldLoad("OnRetryHook")) {
+				hookCalls = append(hookCalls, cl)
+			}
+		}
+		hookNil, _ := NilEdges(I, func(v ssa.Value) bool { return AllOrigins(v, exportedFieldLoad("OnRetryHook")) })
+		_, fail := NilEdges(I, ResultOfAny(inLoop, 1))
+		for _, e := range fail {
+			re := ReachEdge(e, NewCut().AddInstrs(hookCalls...).AddEdges(hookNil...))
+			okH := true
+			for _, hc := range inLoop {
+				if re[hc] {
+					okH = false
+				}
+			}
+			c.Report(okH && len(hookCalls) > 0, P+".O5", "HOOK-WHENEVER-SET", I, e.From.Instrs[len(e.From.Instrs)-1].Pos(), "failed-retry edge", "from a failed retry the next attempt is reached only past the hook call or the edge on which the hook is nil")
+		}
+	}
 }
 
 func c12Backoff(c *Check, P string, I *ssa.Function, b ssa.Value) {
